@@ -180,6 +180,8 @@ TMap == /\ IsEv("Map")
                        ELSE IF ok THEN (IF InWindow(geo, win[h], n) THEN "Granularity:map-accepted"
                                         ELSE "Range:map-accepted")
                        ELSE "Result:map-refused")
+                 \* a write mapping refused because the area is shared must not hand out the address either
+                 ELSE IF ~ok /\ e.mode = "w" /\ pred = "busy" /\ e.leak = 1 THEN "WriteOnlySingle:address-handed-out"
                  ELSE IF ~ok THEN ""
                  ELSE IF \/ e.hsub # geo.planes[p].hsub \/ e.vsub # geo.planes[p].vsub
                          \/ e.mps # geo.planes[p].mps THEN "Report:plane"
